@@ -13,6 +13,8 @@ use tracing;
 pub(crate) struct PeerInfo {
   pub uri: String,
   pub strategy: Arc<dyn RouterSendStrategy>,
+  /// The pipe that currently owns this identity's forward mapping.
+  pub pipe_read_id: usize,
 }
 
 #[derive(Debug, Default)]
@@ -34,6 +36,7 @@ impl RouterMap {
     let peer_info = PeerInfo {
       uri: endpoint_uri.clone(),
       strategy: Arc::new(DefaultRouterStrategy), // Use default strategy initially
+      pipe_read_id,
     };
 
     if let Some(old_info) = id_to_info_guard.insert(identity.clone(), peer_info) {
@@ -50,7 +53,13 @@ impl RouterMap {
     if let Some(old_identity_for_this_pipe) =
       pipe_to_id_guard.insert(pipe_read_id, identity.clone())
     {
-      if old_identity_for_this_pipe != identity {
+      // Only drop the old identity's forward mapping if it still belongs to this pipe
+      // (another pipe may have claimed that identity in the meantime).
+      if old_identity_for_this_pipe != identity
+        && id_to_info_guard
+          .get(&old_identity_for_this_pipe)
+          .map_or(false, |info| info.pipe_read_id == pipe_read_id)
+      {
         id_to_info_guard.remove(&old_identity_for_this_pipe);
         tracing::warn!(
             pipe_read_id,
@@ -72,6 +81,13 @@ impl RouterMap {
 
     if let Some(identity) = identity_to_remove {
       let mut id_to_info_guard = self.identity_to_peer_info.write();
+      // The identity may meanwhile be owned by a newer pipe (identity collision): keep that mapping.
+      if id_to_info_guard
+        .get(&identity)
+        .map_or(false, |info| info.pipe_read_id != pipe_read_id)
+      {
+        return;
+      }
       if let Some(removed_info) = id_to_info_guard.remove(&identity) {
         tracing::trace!(
             ?identity,
@@ -111,16 +127,10 @@ impl RouterMap {
           "RouterMap removed peer by identity (forward map)."
       );
 
-      // Now, find and remove the reverse mapping.
+      // Remove the reverse mapping of the pipe that owned this identity.
       let mut pipe_to_id_guard = self.read_pipe_to_identity.write();
-      let mut key_to_remove: Option<usize> = None;
-      for (key, val) in pipe_to_id_guard.iter() {
-        if val == identity {
-          key_to_remove = Some(*key);
-          break;
-        }
-      }
-      if let Some(key) = key_to_remove {
+      let key = removed_info.pipe_read_id;
+      if pipe_to_id_guard.get(&key) == Some(identity) {
         pipe_to_id_guard.remove(&key);
         tracing::trace!(
           ?identity,
@@ -148,6 +158,7 @@ impl RouterMap {
     let peer_info = PeerInfo {
       uri: endpoint_uri.to_string(),
       strategy,
+      pipe_read_id,
     };
 
     let mut id_to_info_guard = self.identity_to_peer_info.write();
@@ -155,7 +166,11 @@ impl RouterMap {
 
     // Remove old identity if the pipe is being re-identified
     if let Some(old_identity) = pipe_to_id_guard.get(&pipe_read_id) {
-      if *old_identity != new_identity {
+      if *old_identity != new_identity
+        && id_to_info_guard
+          .get(old_identity)
+          .map_or(false, |info| info.pipe_read_id == pipe_read_id)
+      {
         id_to_info_guard.remove(old_identity);
       }
     }
